@@ -197,7 +197,7 @@ Lemma cs_upd_amount s app asset amt b : cs (upd_amount s app asset amt b) = cs s
 Proof. unfold upd_amount. destruct (lks s (app, asset)); reflexivity. Qed.
 
 Lemma step_effok s o s' :
-  valid_op o = true -> is_upd_lookup o = false -> step s o = Ok s' -> EffOk s s' o.
+  valid_op o = true -> is_multi o = false -> step s o = Ok s' -> EffOk s s' o.
 Proof.
   intros Hv Hup. destruct o; cbn [step]; try discriminate Hup.
   - (* create *)
@@ -421,7 +421,7 @@ Proof.
   - (* v2 debt close *)
     unfold v2_debt_close. intros H. apply obind_ok in H. destruct H as (s1 & H1 & H2).
     apply obind_ok in H2. destruct H2 as (s2 & H2 & H3).
-    eapply effok_of_seff with (app := app) (asset := asset) (dl := coll_amt) (dn := debt_denom) (db := debt_amt); [|reflexivity|reflexivity].
+    eapply effok_of_seff with (app := app) (asset := asset) (dl := debt_amt) (dn := debt_denom) (db := debt_amt); [|reflexivity|reflexivity].
     eapply ceff_eq; [eapply ceff_trans; [eapply ceff_trans|]|..].
     + eapply seff_lift; [exact H1|]. intros c Hc. exact (ceff_csend _ _ _ _ _ _ (app, asset) Hc).
     + eapply seff_lift; [exact H2|]. intros c Hc. exact (ceff_set_net_fee _ _ _ _ _ debt_denom Hc).
@@ -431,6 +431,28 @@ Proof.
   - (* v2 penalty *)
     intros H. eapply effok_of_seff with (app := app) (asset := debt_asset) (dl := amt) (dn := debt_asset) (db := amt); [|reflexivity|reflexivity].
     exact (seff_penalty _ _ _ _ _ _ H).
+  - (* v2 TriggerEsm *)
+    unfold v2_trigger_esm. destruct (collected <? 0); [discriminate|].
+    fold (esm_xfer collected fee). destruct (esm_xfer collected fee <? 0); [discriminate|]. intros H.
+    eapply effok_of_seff with (app := app) (asset := debt_asset) (dl := esm_xfer collected fee) (dn := debt_asset) (db := esm_xfer collected fee);
+      [|reflexivity|reflexivity].
+    exact (seff_penalty _ _ _ _ _ _ H).
+  - (* collector MsgDeposit + Refund *)
+    assert (Hu : 0 <= u) by (cbn in Hv; lia). unfold msg_cdeposit.
+    destruct (amt <=? 0); [discriminate|]. destruct (app =? 0); [discriminate|]. destruct done; [discriminate|].
+    destruct (negb (has_asset (cs s) d)); [discriminate|].
+    destruct (Z.eqb_spec d 3) as [->|]; [|discriminate]. destruct (Z.eqb_spec app 2) as [->|]; [|discriminate]. cbn [negb].
+    intros H. apply obind_ok in H. destruct H as (s1 & H1 & H2). apply obind_ok in H2. destruct H2 as (s2 & H2 & H3).
+    destruct (bnk (cs s2) (A_COLLECTOR, 3) >? INT64_MAX); [discriminate|]. destruct (bnk (cs s2) (A_COLLECTOR, 3) <? REFUND_TOTAL); [discriminate|].
+    apply obind_ok in H3. destruct H3 as (s3 & H3 & H4).
+    eapply effok_of_seff with (app := 2) (asset := 3) (dl := amt - REFUND_TOTAL) (dn := 3) (db := amt - REFUND_TOTAL); [|reflexivity|reflexivity].
+    eapply ceff_eq; [eapply ceff_trans; [eapply ceff_trans; [eapply ceff_trans|]|]|..].
+    + eapply seff_lift; [exact H1|]. intros c Hc. exact (ceff_csend _ _ _ _ _ _ (2, 3) Hc).
+    + eapply seff_lift; [exact H2|]. intros c Hc. exact (ceff_set_net_fee _ _ _ _ _ 3 Hc).
+    + eapply seff_lift; [exact H3|]. intros c Hc. exact (ceff_csend _ _ _ _ _ _ (2, 3) Hc).
+    + eapply seff_lift; [exact H4|]. intros c Hc. exact (ceff_decrease _ _ _ _ _ 3 Hc).
+    + lia.
+    + rewrite (user_not_collector u Hu), Z.eqb_refl. change (A_EXT =? A_COLLECTOR) with false. cbv iota. lia.
 Qed.
 
 (* ------------------------------------------------------------------------------------ *)
@@ -612,11 +634,93 @@ Proof.
     exists r. split; [exact Hr|]. split; [apply Hre; exact E|exact F].
 Qed.
 
+(* ---- esm SetUpDebtRedemptionForCollector ---- *)
+Definition EsmEff (c c' : cstate) (app : Z) (l : list (Z * Z)) : Prop :=
+  (forall a d, nf_val c' a d = if (a =? app) && esm_has1 l d then 0 else nf_val c a d) /\
+  (forall d, cbal c' d = cbal c d - (nf_val c app d - nf_val c' app d)).
+
+Lemma esm_has1_cons asset cls r d : esm_has1 ((asset, cls) :: r) d = ((asset =? d) && (cls =? 1)) || esm_has1 r d.
+Proof. reflexivity. Qed.
+
+(* a skipped record: nothing moves; if the record is listed as a debt asset its entry is 0 already *)
+Lemma esm_eff_skip c c' app asset cls r :
+  (cls =? 1 = true -> nf_val c app asset = 0) -> EsmEff c c' app r -> EsmEff c c' app ((asset, cls) :: r).
+Proof.
+  intros Hz (A1 & A2). split; [|exact A2]. intros a d. rewrite A1, esm_has1_cons.
+  destruct (a =? app) eqn:Ea; cbn [andb]; [|reflexivity]. apply Z.eqb_eq in Ea. subst a.
+  destruct (esm_has1 r d); [rewrite orb_true_r; reflexivity|]. rewrite orb_false_r.
+  destruct (Z.eqb_spec asset d) as [->|]; cbn [andb]; [|reflexivity].
+  destruct (cls =? 1); [|reflexivity]. cbn [andb]. rewrite Hz; reflexivity.
+Qed.
+
+Lemma esm_loop_eff l : forall c app c',
+  NfNonneg c -> Backed c -> esm_redeem_loop c app l = Ok c' -> NfNonneg c' /\ Backed c' /\ EsmEff c c' app l.
+Proof.
+  induction l as [|[asset cls] r IH]; intros c app c' Hn Hb; cbn [esm_redeem_loop].
+  - intros H; injection H as <-. split; [exact Hn|]. split; [exact Hb|]. split; [intros a d; cbn; rewrite andb_false_r; reflexivity|intros d; lia].
+  - destruct (nf c (app, asset)) as [x|] eqn:N.
+    2:{ intros H. destruct (IH _ _ _ Hn Hb H) as (A & B & E). split; [exact A|]. split; [exact B|].
+        apply esm_eff_skip; [|exact E]. intros _. unfold nf_val. rewrite N. reflexivity. }
+    destruct ((cls =? 0) || (x =? 0)) eqn:G.
+    { intros H. destruct (IH _ _ _ Hn Hb H) as (A & B & E). split; [exact A|]. split; [exact B|].
+      apply esm_eff_skip; [|exact E]. intros Hc. unfold nf_val. rewrite N. lia. }
+    destruct (cls =? 3); [discriminate|]. destruct (cls =? 1) eqn:C1; cbn [negb]; [|discriminate].
+    destruct (csend c A_COLLECTOR A_EXT asset x) as [c1| |] eqn:S; try discriminate.
+    destruct (csend_spec _ _ _ _ _ _ S) as (_ & Hnf1 & _).
+    destruct (decrease_net_fee c1 app asset x) as [c2| |] eqn:D.
+    2:{ exfalso. revert D. unfold decrease_net_fee. rewrite Hnf1, N. replace (x - x <? 0) with false by lia. discriminate. }
+    2:{ exfalso. revert D. unfold decrease_net_fee. rewrite Hnf1, N. replace (x - x <? 0) with false by lia. discriminate. }
+    assert (E12 : CEff c c2 (app, asset) (- x) asset (- x)).
+    { eapply ceff_eq; [exact (ceff_trans _ _ _ _ _ _ _ _ _ (ceff_csend _ _ _ _ _ _ (app, asset) S) (ceff_decrease _ _ _ _ _ asset D))|lia|cbn; lia]. }
+    assert (Hn2 : NfNonneg c2) by exact (proj2 (proj2 E12) Hn).
+    assert (Hb2 : Backed c2) by exact (ceff_backed _ _ _ _ _ _ Hn Hb E12 ltac:(lia)).
+    intros H. destruct (IH _ _ _ Hn2 Hb2 H) as (A & B & (E1 & E2)). split; [exact A|]. split; [exact B|].
+    destruct E12 as (F1 & F2 & _).
+    assert (Hx : nf_val c app asset = x) by (unfold nf_val; rewrite N; reflexivity).
+    split.
+    + intros a d. rewrite E1, F1, esm_has1_cons, keq_pair, C1, andb_true_r.
+      destruct (a =? app) eqn:Ea; cbn [andb]; [|lia]. apply Z.eqb_eq in Ea. subst a.
+      destruct (esm_has1 r d); [rewrite orb_true_r; reflexivity|]. rewrite orb_false_r.
+      destruct (Z.eqb_spec asset d) as [->|Hne].
+      * rewrite Z.eqb_refl. lia.
+      * destruct (Z.eqb_spec d asset); [congruence|]. lia.
+    + intros d. rewrite E2, F2. specialize (F1 app d). rewrite keq_pair, Z.eqb_refl in F1. cbn [andb] in F1. rewrite F1.
+      destruct (d =? asset); lia.
+Qed.
+
+Lemma esm_redeem_eff s app st l s' :
+  NfNonneg (cs s) -> Backed (cs s) -> esm_redeem s app st l = Ok s' ->
+  NfNonneg (cs s') /\ Backed (cs s') /\ EsmEff (cs s) (cs s') app l.
+Proof.
+  intros Hn Hb. unfold esm_redeem. destruct (negb st); [discriminate|]. intros H.
+  apply lift_ok in H. destruct H as (c & H & ->). cbn [cs set_cs]. exact (esm_loop_eff _ _ _ _ Hn Hb H).
+Qed.
+
+(* nothing but NfNonneg is needed for non-negativity: re-prove it without the backing *)
+Lemma esm_loop_nonneg l : forall c app c', NfNonneg c -> esm_redeem_loop c app l = Ok c' -> NfNonneg c'.
+Proof.
+  induction l as [|[asset cls] r IH]; intros c app c' Hn; cbn [esm_redeem_loop].
+  - intros H; injection H as <-. exact Hn.
+  - destruct (nf c (app, asset)) as [x|]; [|apply IH; exact Hn].
+    destruct ((cls =? 0) || (x =? 0)); [apply IH; exact Hn|]. destruct (cls =? 3); [discriminate|]. destruct (negb (cls =? 1)); [discriminate|].
+    destruct (csend c A_COLLECTOR A_EXT asset x) as [c1| |] eqn:S; try discriminate.
+    destruct (csend_spec _ _ _ _ _ _ S) as (_ & Hnf1 & _). pose proof (nfnonneg_same _ _ Hn Hnf1) as Hn1.
+    destruct (decrease_net_fee c1 app asset x) as [c2| |] eqn:D; try discriminate.
+    + apply IH. exact (decrease_net_fee_nonneg _ _ _ _ _ D Hn1).
+    + intros H; injection H as <-. exact Hn1.
+Qed.
+
+Lemma esm_redeem_nonneg s app st l s' : NfNonneg (cs s) -> esm_redeem s app st l = Ok s' -> NfNonneg (cs s').
+Proof.
+  intros Hn. unfold esm_redeem. destruct (negb st); [discriminate|]. intros H.
+  apply lift_ok in H. destruct H as (c & H & ->). cbn [cs set_cs]. exact (esm_loop_nonneg _ _ _ _ Hn H).
+Qed.
+
 (* ---- every op keeps "net fees never negative" ---- *)
 Lemma step_nonneg s o s' : valid_op o = true -> NfNonneg (cs s) -> step s o = Ok s' -> NfNonneg (cs s').
 Proof.
-  intros Hv Hn H. destruct (is_upd_lookup o) eqn:U.
-  - destruct o; try discriminate U. exact (update_lookup_nonneg _ _ _ _ _ _ _ _ _ _ Hn H).
+  intros Hv Hn H. destruct (is_multi o) eqn:U.
+  - destruct o; try discriminate U; [exact (update_lookup_nonneg _ _ _ _ _ _ _ _ _ _ Hn H)|exact (esm_redeem_nonneg _ _ _ _ _ Hn H)].
   - exact (proj2 (proj2 (step_effok s o s' Hv U H)) Hn).
 Qed.
 
@@ -633,7 +737,7 @@ Lemma at_key_zero a1 d1 a2 d2 k : at_key a1 d1 k 0 = at_key a2 d2 k 0.
 Proof. unfold at_key. destruct (keq _ _), (keq _ _); reflexivity. Qed.
 
 Lemma step_moves s o s' :
-  valid_op o = true -> kf_C13_any o = false -> is_upd_lookup o = false -> step s o = Ok s' ->
+  valid_op o = true -> kf_C13_any o = false -> is_multi o = false -> step s o = Ok s' ->
   exists app asset dl db, Moves s s' o app asset dl db.
 Proof.
   intros Hv Hk Hu H. unfold Moves.
@@ -666,19 +770,22 @@ Proof.
     apply lift_ok in H1. destruct H1 as (c & H1 & _). pose proof (csend_amount_nonneg _ _ _ _ _ _ H1) as Hl.
     unfold kf_C13_any in Hk. cbn in Hk. assert (lot = 0) by lia. subst lot.
     exists app, asset, 0, 0. repeat split; try lia; reflexivity.
-  - (* v2 debt close outside the class: DebtToken is the collector asset and the amounts agree *)
-    unfold kf_C13_any in Hk. cbn in Hk. assert (debt_denom = asset /\ coll_amt = debt_amt) as (-> & ->) by lia.
+  - (* v2 debt close: DebtToken is in the denom of the collector asset (valid_op); its amount is booked *)
+    cbn in Hv. assert (debt_denom = asset) as -> by lia.
     exists app, asset, debt_amt, debt_amt. repeat split; try lia; reflexivity.
   - exists app, debt_asset, amt, amt. repeat split; try lia; reflexivity.
+  - exists app, debt_asset, (esm_xfer collected fee), (esm_xfer collected fee). repeat split; try lia; reflexivity.
+  - exists app, d, (amt - REFUND_TOTAL), (amt - REFUND_TOTAL). repeat split; try lia; reflexivity.
 Qed.
 
 Lemma step_backed s o s' :
   valid_op o = true -> kf_C13_any o = false -> CInv s -> step s o = Ok s' -> Backed (cs s').
 Proof.
-  intros Hv Hk (HI & Hn & Hb) H. destruct (is_upd_lookup o) eqn:U.
-  - destruct o; try discriminate U. cbn [step] in H.
-    destruct (update_lookup_eff _ _ _ _ _ _ _ _ _ _ (conj HI (conj Hn Hb)) H) as (r & Hr & E & _).
-    exact (ceff_backed _ _ _ _ _ _ Hn Hb E ltac:(lia)).
+  intros Hv Hk (HI & Hn & Hb) H. destruct (is_multi o) eqn:U.
+  - destruct o; try discriminate U; cbn [step] in H.
+    + destruct (update_lookup_eff _ _ _ _ _ _ _ _ _ _ (conj HI (conj Hn Hb)) H) as (r & Hr & E & _).
+      exact (ceff_backed _ _ _ _ _ _ Hn Hb E ltac:(lia)).
+    + exact (proj1 (proj2 (esm_redeem_eff _ _ _ _ _ Hn Hb H))).
   - destruct (step_effok s o s' Hv U H) as (A1 & A2 & A3).
     destruct (step_moves s o s' Hv Hk U H) as (app & asset & dl & db & M1 & M2 & M3 & _).
     apply (ceff_backed (cs s) (cs s') app asset dl db Hn Hb); [|exact M3].
@@ -750,7 +857,7 @@ Proof.
 Qed.
 
 Lemma delta_holds keys s o s' :
-  valid_op o = true -> is_upd_lookup o = false -> step s o = Ok s' -> holds_C13_delta keys s o s' = true.
+  valid_op o = true -> is_multi o = false -> step s o = Ok s' -> holds_C13_delta keys s o s' = true.
 Proof.
   intros Hv U H. destruct (step_effok s o s' Hv U H) as (A1 & _).
   unfold holds_C13_delta. apply forallb_forall. intros [a d] _. cbn [fst snd]. specialize (A1 a d).
@@ -764,6 +871,14 @@ Proof.
   intros HC H. cbn [step] in H. destruct (update_lookup_eff _ _ _ _ _ _ _ _ _ _ HC H) as (r & Hr & (A1 & _) & F).
   unfold holds_C13_delta. apply forallb_forall. intros [a d] _. cbn [fst snd]. rewrite A1, F. unfold at_key.
   destruct (keq (a, d) (app, asset)); lia.
+Qed.
+
+Lemma delta_holds_esm keys s app st l s' :
+  CInv s -> step s (EsmRedeem app st l) = Ok s' -> holds_C13_delta keys s (EsmRedeem app st l) s' = true.
+Proof.
+  intros (_ & Hn & Hb) H. cbn [step] in H. destruct (esm_redeem_eff _ _ _ _ _ Hn Hb H) as (_ & _ & (A1 & _)).
+  unfold holds_C13_delta. apply forallb_forall. intros [a d] _. cbn [fst snd]. rewrite A1.
+  destruct ((a =? app) && esm_has1 l d); lia.
 Qed.
 
 Lemma nf_total_moves c c' la d app asset dl :
@@ -784,11 +899,16 @@ Lemma flow_holds la ld s o s' :
   step s o = Ok s' -> holds_C13_flow la ld s o s' = true.
 Proof.
   intros Hv Hk HC Hnd Hin H. unfold holds_C13_flow. apply forallb_forall. intros d _.
-  destruct (is_upd_lookup o) eqn:U.
-  - destruct o; try discriminate U. cbn [step] in H.
-    destruct (update_lookup_eff _ _ _ _ _ _ _ _ _ _ HC H) as (r & Hr & (A1 & A2 & _) & _).
-    fold (cbal (cs s') d). fold (cbal (cs s) d). rewrite A2, (nf_total_moves _ _ la d app asset (- r) Hnd A1).
-    unfold key_in in Hin. cbn [op_key] in Hin. rewrite Hin, andb_true_r. destruct (d =? asset); lia.
+  destruct (is_multi o) eqn:U.
+  - destruct o; try discriminate U; cbn [step] in H.
+    + destruct (update_lookup_eff _ _ _ _ _ _ _ _ _ _ HC H) as (r & Hr & (A1 & A2 & _) & _).
+      fold (cbal (cs s') d). fold (cbal (cs s) d). rewrite A2, (nf_total_moves _ _ la d app asset (- r) Hnd A1).
+      unfold key_in in Hin. cbn [op_key] in Hin. rewrite Hin, andb_true_r. destruct (d =? asset); lia.
+    + destruct HC as (_ & Hn & Hb). destruct (esm_redeem_eff _ _ _ _ _ Hn Hb H) as (_ & _ & (A1 & A2)).
+      fold (cbal (cs s') d). fold (cbal (cs s) d). rewrite A2. unfold nf_total.
+      rewrite (sum_over_bump la (fun a => nf_val (cs s) a d) (fun a => nf_val (cs s') a d) app (nf_val (cs s') app d - nf_val (cs s) app d) Hnd).
+      * unfold key_in in Hin. cbn [op_key] in Hin. rewrite Hin. lia.
+      * intros a. destruct (Z.eqb_spec a app) as [->|Hne]; [lia|]. rewrite A1. destruct (Z.eqb_spec a app); [contradiction|]. cbn [andb]. lia.
   - destruct (step_effok s o s' Hv U H) as (A1 & A2 & _).
     destruct (step_moves s o s' Hv Hk U H) as (app & asset & dl & db & M1 & M2 & M3 & M4 & M5).
     assert (Hval : forall a d, nf_val (cs s') a d = nf_val (cs s) a d + (if keq (a, d) (app, asset) then dl else 0))
@@ -861,6 +981,14 @@ Definition ex_kf2_ops : list op :=
   [ AddLookup 1 2 3 0 1000 500 500 500; SetFlags 1 2 true false false; FeeIn 1 2 2000 false; V2CheckStats 1 2; V2SurplusClose 1 2 500 ].
 Definition ex_kf3_ops : list op := [ SetFlags 1 2 false true false; V2DebtClose 1 2 700 2 500 ].
 
+(* the ESM / refund paths: a TriggerEsm with more collected than the penalty (1200 of 5000 go to the
+   collector), one with less (all 700), the collector MsgDeposit + Refund in its own configuration
+   (app 2, asset 3), then the emergency redemption of both apps' books *)
+Definition ex_genesis2 : state := genesis ex_assets ex_apps [(0, 3, 30000000000)].
+Definition ex_ops2 : list op :=
+  [ V2TriggerEsm 1 3 5000 1200; V2TriggerEsm 1 3 700 1200; CDeposit 0 2 3 25000000000 false;
+    FeeIn 1 2 900 false; EsmRedeem 1 true [(2, 0); (3, 1)]; EsmRedeem 2 true [(3, 1)] ].
+
 Definition last_kf (kf : op -> bool) (ops : list op) : bool :=
   match rev ops with o :: r => kf o && forallb kf_free r | [] => false end.
 
@@ -879,8 +1007,28 @@ Lemma kf2_refuted :
   holds_C13_flow [1; 2] [1; 2; 3] (run ex_genesis (removelast ex_kf2_ops)) (V2SurplusClose 1 2 500) (run ex_genesis ex_kf2_ops) = false.
 Proof. vm_compute. repeat split. Qed.
 
-Lemma kf3_refuted :
-  forallb valid_op ex_kf3_ops = true /\ last_kf kf_C13_3 ex_kf3_ops = true /\
-  holds_C13_backed [1; 2] [1; 2; 3] (run ex_genesis ex_kf3_ops) = false /\
-  holds_C13_flow [1; 2] [1; 2; 3] (run ex_genesis (removelast ex_kf3_ops)) (V2DebtClose 1 2 700 2 500) (run ex_genesis ex_kf3_ops) = false.
+(* the former witness of C13-F3 (repaired): DebtToken.Amount = 500 is booked for the 500 that arrive *)
+Lemma kf3_regression :
+  forallb valid_op ex_kf3_ops = true /\ forallb kf_free ex_kf3_ops = true /\
+  holds_C13_backed [1; 2] [1; 2; 3] (run ex_genesis ex_kf3_ops) = true /\
+  holds_C13_flow [1; 2] [1; 2; 3] (run ex_genesis (removelast ex_kf3_ops)) (V2DebtClose 1 2 700 2 500) (run ex_genesis ex_kf3_ops) = true /\
+  nf_val (cs (run ex_genesis ex_kf3_ops)) 1 2 = 500 /\ bnk (cs (run ex_genesis ex_kf3_ops)) (A_COLLECTOR, 2) = 500.
+Proof. vm_compute. repeat split. Qed.
+
+(* C13-F2 poisons the savings-rate change: once the surplus close has left the collector with fewer
+   coins than the books say, collector.LockerIterateRewards lowers the books (DecreaseNetFeeCollectedData
+   succeeds), fails to pay (`continue`) and leaves the locker uncredited - the books fall by 3 with
+   nothing paid out *)
+Definition ex_kf2_rate_ops : list op :=
+  [ AddLookup 1 2 3 100000000000000000 1000 500 500 500; WlLocker 1 2; WlReward 1 2; SetFlags 1 2 true false false;
+    LCreate 0 1 2 1000000; FeeIn 1 2 2000 false; V2CheckStats 1 2; V2SurplusClose 1 2 500; GetAmount 1 2 998;
+    UpdLookup 1 2 50000000000000000 1000 500 500 500 [3500000000000000000] ].
+
+Lemma kf2_rate_change_unpaid :
+  let s := run ex_genesis (removelast ex_kf2_rate_ops) in let s' := run ex_genesis ex_kf2_rate_ops in
+  forallb valid_op ex_kf2_rate_ops = true /\ forallb kf_free ex_kf2_rate_ops = false /\
+  bnk (cs s) (A_COLLECTOR, 2) = 2 /\ nf_val (cs s) 1 2 = 1002 /\
+  nf_val (cs s') 1 2 = 999 /\ bnk (cs s') (A_COLLECTOR, 2) = 2 /\
+  net_sum (lockers_of s' 1 2) = net_sum (lockers_of s 1 2) /\
+  holds_C13_flow [1; 2] [1; 2; 3] s (UpdLookup 1 2 50000000000000000 1000 500 500 500 [3500000000000000000]) s' = false.
 Proof. vm_compute. repeat split. Qed.
